@@ -340,6 +340,10 @@ pub const OWN_NAME: &[(&str, &str)] = &[
     ("do {\n  tnest = 1\n  return fdo(tnest)\n}", "4"),
     ("([9] via (tnest => fdo(1)))[0]", "4"),
     ("((tnest) => frec(2))(9)", "6"),
+    // a top-level name read only under a postfix operator inside a function
+    ("do {\n  nfac = 4\n  return ffac()\n}", "6"),
+    ("((nfac) => ffac())(5)", "6"),
+    ("([5] via (nfac => ffac()))[0]", "6"),
 ];
 
 /// (right-hand side with the inner binding, source of the value the inner binding gives x)
@@ -670,7 +674,7 @@ impl Check for History {
                 ctx.nontrivial(hash_str(src));
                 let sess = Sess::new();
                 sess.set_inputs(&[]);
-                for l in ["fdo = x => do {\n  y = (tnest = x * 2) + tnest\n  return y\n}", "frec = n => do {\n  y = if n == 0 then 0 else (tnest = n * 2) + frec(n - 1)\n  return y\n}", "count = n => if n <= 0 then 0 else 1 + count(n - 1)", "alias = count", "even = n => if n == 0 then true else odd(n - 1)", "odd = n => if n == 0 then false else even(n - 1)"] {
+                for l in ["nfac = 3", "ffac = () => nfac!", "fdo = x => do {\n  y = (tnest = x * 2) + tnest\n  return y\n}", "frec = n => do {\n  y = if n == 0 then 0 else (tnest = n * 2) + frec(n - 1)\n  return y\n}", "count = n => if n <= 0 then 0 else 1 + count(n - 1)", "alias = count", "even = n => if n == 0 then true else odd(n - 1)", "odd = n => if n == 0 then false else even(n - 1)"] {
                     if let Err(e) = sess.obs(l) {
                         fail!("own-name:setup", "`{}` fails: {:?}", l, e);
                     }
